@@ -1,6 +1,8 @@
 /- C15 — eviction callback (RawLRU): `Eff.cbs` of every operation = the departing entries, in leaving order,
    with their current values; nothing for updates, reads, hits of `*_or_put`; nothing at all without a callback. -/
 import Caches.Lemmas.RawLru
+import Caches.Lemmas.Departures
+import Caches.Lemmas.Reach
 set_option linter.unusedSectionVars false
 set_option linter.unusedVariables false
 namespace C15
@@ -67,6 +69,72 @@ theorem orput_hit_cbs (c : RawLru κ ν) (k : κ) (v cur : ν) (h : find k c.ite
 /-- without a callback nothing is ever logged -/
 theorem no_callback_no_calls (c : RawLru κ ν) (e : κ × ν) (h : c.hasCb = false) : c.cbOf e = [] := by
   simp [RawLru.cbOf, h]
+
+/-! ## exactly once per departing entry, never otherwise
+
+`Departures items items' cbs`: the log has no repeated key and lists exactly the entries of `items` whose key is no
+longer present in `items'` (with the value they had). Proved for every operation that can make an entry leave, on
+every well-formed cache with a callback installed; `stepCb` packages them as one step function and
+`departures_every_step` lifts the statement to every state reachable by any history. -/
+
+theorem put_exactly_departures (c c' : RawLru κ ν) (k : κ) (v : ν) (r : PutResult κ ν) (e : Eff κ ν) (h : c.Inv)
+    (hcb : c.hasCb = true) (hp : c.put k v = .ok (c', r, e)) : Departures c.items c'.items e.cbs :=
+  put_departures c c' k v r e h hcb hp
+
+theorem remove_exactly_departures (c : RawLru κ ν) (k : κ) (h : c.Inv) (hcb : c.hasCb = true) :
+    Departures c.items (c.remove k).1.items (c.remove k).2.2.cbs := remove_departures c k h hcb
+
+theorem removeLru_exactly_departures (c : RawLru κ ν) (h : c.Inv) (hcb : c.hasCb = true) :
+    Departures c.items c.removeLru.1.items c.removeLru.2.2.cbs := removeLru_departures c h hcb
+
+theorem purge_exactly_departures (c : RawLru κ ν) (h : c.Inv) (hcb : c.hasCb = true) :
+    ∃ c' e, c.purge = .ok (c', e) ∧ Departures c.items c'.items e.cbs ∧ e.cbs = c.items.reverse :=
+  purge_departures c h hcb
+
+theorem resize_exactly_departures (c : RawLru κ ν) (n : Nat) (h : c.Inv) (hcb : c.hasCb = true) :
+    ∃ c' ev e, c.resize n = .ok (c', ev, e) ∧ Departures c.items c'.items e.cbs := resize_departures c n h hcb
+
+/-- one step together with its callback log (reads and in-place writes log nothing by construction) -/
+def stepCb (c : RawLru κ ν) : RawOp κ ν → Res (RawLru κ ν × List (κ × ν))
+  | .put k v => match c.put k v with | .error f => .error f | .ok (c', _, e) => .ok (c', e.cbs)
+  | .remove k => .ok ((c.remove k).1, (c.remove k).2.2.cbs)
+  | .removeLru => .ok (c.removeLru.1, c.removeLru.2.2.cbs)
+  | .purge => match c.purge with | .error f => .error f | .ok (c', e) => .ok (c', e.cbs)
+  | .resize n => match c.resize n with | .error f => .error f | .ok (c', _, e) => .ok (c', e.cbs)
+  | .peekOrPut k v => match c.peekOrPut k v with | .error f => .error f | .ok (c', _, _, e) => .ok (c', e.cbs)
+  | .peekMutOrPut k v w => match c.peekMutOrPut k v w with | .error f => .error f | .ok (c', _, _, e) => .ok (c', e.cbs)
+  | .containsOrPut k v => match c.containsOrPut k v with | .error f => .error f | .ok (c', _, _, e) => .ok (c', e.cbs)
+  | o => match c.step o with | .error f => .error f | .ok c' => .ok (c', [])
+
+/-- the log of the capacity-evicting / removing operations, at every state reachable by any history of a cache built
+    with a callback: exactly the departing entries, each once -/
+theorem departures_every_step (cap : Nat) (c0 : RawLru κ ν) (h0 : RawLru.new cap true = some c0)
+    (ops : List (RawOp κ ν)) :
+    ∃ c, runOps RawLru.step c0 ops = .ok c ∧ c.hasCb = true ∧
+      (∀ k v, ∃ c' log, stepCb c (.put k v) = .ok (c', log) ∧ Departures c.items c'.items log) ∧
+      (∀ k, ∃ c' log, stepCb c (.remove k) = .ok (c', log) ∧ Departures c.items c'.items log) ∧
+      (∃ c' log, stepCb c .removeLru = .ok (c', log) ∧ Departures c.items c'.items log) ∧
+      (∃ c' log, stepCb c .purge = .ok (c', log) ∧ Departures c.items c'.items log) ∧
+      (∀ n, ∃ c' log, stepCb c (.resize n) = .ok (c', log) ∧ Departures c.items c'.items log) := by
+  have hcb0 : c0.hasCb = true := by
+    unfold RawLru.new at h0; split at h0 <;> simp at h0; rw [← h0]
+  obtain ⟨c, hr, hi, hcb⟩ := runOps_inv RawLru.step (fun c => c.Inv ∧ c.hasCb = true)
+    (fun s o hs => by
+      obtain ⟨s', h1, h2⟩ := RawLru.step_inv s o hs.1
+      refine ⟨s', h1, h2, ?_⟩
+      have := RawLru.step_hasCb s s' o hs.1 h1
+      rw [this]; exact hs.2) ops c0 ⟨RawLru.inv_new cap true c0 h0, hcb0⟩
+  refine ⟨c, hr, hcb, ?_, ?_, ?_, ?_, ?_⟩
+  · intro k v
+    obtain ⟨c', r, e, hp, _⟩ := put_total_inv c k v hi
+    exact ⟨c', e.cbs, by simp only [stepCb, hp], put_departures c c' k v r e hi hcb hp⟩
+  · intro k; exact ⟨_, _, rfl, remove_departures c k hi hcb⟩
+  · exact ⟨_, _, rfl, removeLru_departures c hi hcb⟩
+  · obtain ⟨c', e, hp, hd, _⟩ := purge_departures c hi hcb
+    exact ⟨c', e.cbs, by simp only [stepCb, hp], hd⟩
+  · intro n
+    obtain ⟨c', ev, e, hp, hd⟩ := resize_departures c n hi hcb
+    exact ⟨c', e.cbs, by simp only [stepCb, hp], hd⟩
 
 example : ((⟨2, [(1, 10), (2, 20)], true⟩ : RawLru Nat Nat).removeLru).2.2.cbs = [(2, 20)] := by rfl
 end C15
